@@ -324,7 +324,7 @@ class C18(runner.Check):
             "peek_array, array, to_list, tojson, iteration, validity, getitem_at at every boundary position, eager and lazy "
             "range slices, field access) and of the generic structural alphabet (slices, carry, num, flatten, reducers, sort, "
             "combinations, rpad, fillna, merges, copies), singly and in ordered sequences of 2 (quick) / 3 (thorough) over a "
-            "10-operation alphabet, also interleaved over two virtual arrays sharing one cache; environment answers chosen by "
+            "10-operation alphabet (thorough: pairs with k=2, triples with k=1), also interleaved over two virtual arrays sharing one cache; environment answers chosen by "
             "the explorer at every cache.get (hit / evicted / mapping dies), cache.set (store / drop / raise / mapping dies) "
             "and generate (ok / raise / wrong length / wrong form), all executions with <= k non-default answers (k=1 quick "
             "for single operations and sequences; k=2 thorough). Oracle: a returned value always equals the eager array's; an "
@@ -342,7 +342,7 @@ class C18(runner.Check):
     # ------------------------------------------------------------------------------------------------------------ shards
     def shards(self, tier):
         out = [(tier, "single", ti) for ti in range(len(TYPES))]
-        out += [(tier, "seq", ti) for ti in range(len(TYPES))]
+        out += [(tier, "seq", ti * 100 + k) for ti in range(len(TYPES)) for k in range(len(SEQ_OPS))]
         out += [(tier, "shared", ti) for ti in (1, 2, 3)]
         out += [(tier, "part", n) for n in range(0, 5 if tier == "quick" else 6)]
         out += [(tier, "l3", k) for k in range(3)]
@@ -360,7 +360,7 @@ class C18(runner.Check):
         return st.pack()
 
     def _values(self, T, tier):
-        N, M, cap = (2, 2, 4) if tier == "quick" else (3, 2, 12)
+        N, M, cap = (2, 2, 4) if tier == "quick" else (3, 2, 8)
         out = []
         for tvs in values.arrays(T, N, M, 5, minlen=1):
             out.append(tvs)
@@ -538,17 +538,21 @@ class C18(runner.Check):
                 self._explore(st, c, bound, eager)
             st.sample({"type": cfg["type"], "value": cfg["value"], "wrapped_at": list(cfg["path"]), "ops": len(ops)}, limit=2)
 
-    def _shard_seq(self, st, tier, ti):
+    def _shard_seq(self, st, tier, x):
+        ti, first = divmod(x, 100)
         T = TYPES[ti]
-        depth = 2 if tier == "quick" else 3
-        bound = 1 if tier == "quick" else 2
         for cfg in self._configs(T, tier):
             if tier == "quick" and (cfg["decl"] in ("length", "form") or not cfg["cache"]):
                 continue
             eager = self._eager_table(cfg["descs"], SEQ_OPS)
-            for seq in itertools.product(SEQ_OPS, repeat=depth):
-                c = dict(cfg, ops=[(0, op) for op in seq])
-                self._explore(st, c, bound, eager)
+            # pairs: deviation bound 1 (quick) / 2 (thorough); triples (thorough): bound 1 on the cached configurations
+            for second in SEQ_OPS:
+                c = dict(cfg, ops=[(0, SEQ_OPS[first]), (0, second)])
+                self._explore(st, c, 1 if tier == "quick" else 2, eager)
+                if tier != "quick" and cfg["cache"] and cfg["decl"] in ("both", "none", "wronglength"):
+                    for third in SEQ_OPS:
+                        c = dict(cfg, ops=[(0, SEQ_OPS[first]), (0, second), (0, third)])
+                        self._explore(st, c, 1, eager)
 
     def _shard_shared(self, st, tier, ti):
         """two virtual arrays with distinct keys in one cache, operations interleaved"""
@@ -568,7 +572,7 @@ class C18(runner.Check):
                 for seq in itertools.product([(w, o) for w in (0, 1) for o in ops], repeat=2 if tier == "quick" else 3):
                     if len(set(w for w, _ in seq)) < 2:
                         continue
-                    self._explore(st, dict(cfg, ops=list(seq)), 1 if tier == "quick" else 2, eager)
+                    self._explore(st, dict(cfg, ops=list(seq)), 1, eager)
 
     # -------------------------------------------------------------------------------------------------------- partitioned
     def _shard_part(self, st, tier, n):
